@@ -1,6 +1,6 @@
 #!/bin/sh
 # tools/seedsweep.sh "C01 C02 ..." "0 1 2"  -- run the quick checks under several seeds, print one line per run
-cd "$(dirname "$0")/.."
+cd "$(dirname "$0")/.."; mkdir -p .work
 ids=${1:-$(python3 -c "import json;print(' '.join(c['property_id'] for c in json.load(open('MANIFEST.json'))['checks']))")}
 seeds=${2:-"1 2 3 4"}
 for s in $seeds; do for c in $ids; do
